@@ -965,6 +965,15 @@ pub fn corpus() -> Vec<Prog> {
         parse_prog(1, &[2, 2], &ints, "r0(1, 1).\nr0(1, 2).\nr0(2, 2).\nr1(V0, V0) <- r0(V0, V0)", "chain"),
         // negation before its binding atom
         parse_prog(2, &[1, 1, 1], &ints, "r0(1).\nr0(2).\nr1(2).\nr2(V0) <- !r1(V1), r0(V0), r0(V1), V0 = V1", "shuffled"),
+        // left-recursive closure over a graph with cycles: a sub-goal that fails only because its
+        // ancestor is on the visited stack is cached as a Derived-source fallback leaf and reused
+        parse_prog(
+            1,
+            &[2, 2, 2],
+            &ints,
+            "r0(3, 1).\nr0(2, 3).\nr0(0, 3).\nr0(1, 0).\nr0(1, 3).\nr0(0, 2).\nr1(V0, V1) <- r0(V0, V1)\nr1(V0, V1) <- r1(V0, V2), r0(V2, V1)\nr2(V0, V0) <- r1(V0, V0), V0 <= 2",
+            "recursion",
+        ),
         // derived relation used twice with a join
         parse_prog(
             1,
